@@ -11,7 +11,7 @@
    what unbounded channels with one stage running after the other deliver; [compose_states] the final
    state of every stage (for lifecycle detection: the final lifecycle table). *)
 From Coq Require Import List NArith Bool Arith Permutation.
-From AdltV Require Import Pipe.Kahn Pipe.KahnProofs Pipe.Loss Pipe.LossProofs Pipe.Shared Pipe.SharedProofs Pipe.Consumer Pipe.ConsumerProofs.
+From AdltV Require Import Pipe.Kahn Pipe.KahnProofs Pipe.Loss Pipe.LossProofs Pipe.Shared Pipe.SharedProofs Pipe.Consumer Pipe.ConsumerProofs Pipe.Incr Pipe.IncrProofs.
 Import ListNotations.
 
 Section Statements.
@@ -297,6 +297,92 @@ Section ConsumerStatements.
   Proof. exact (crun_sound always sched s). Qed.
 End ConsumerStatements.
 
+(* ---------------------------------------------------------------------------------------------------------------
+   The INCREMENTAL protocol by which a consumer follows the lifecycle table (remote.rs process_file_context; Pipe/Incr.v):
+   entries carry the refresh index they were published under; the consumer takes over the entries whose index is larger than
+   the largest it has seen.  Writer events: [IRefresh i ups] (one `refresh()`: the entries [ups] become visible, stamped i),
+   [IDel id] (`empty`: a published lifecycle merged away), [ISend m].  [istep cap] = any interleaving of the writer's events
+   with the consumer's receives and its looks at the table, through a channel of capacity [cap] (0 = rendezvous).
+   [fresh 0 evs]: every refresh publishes under an index strictly larger than every refresh before it (and than 0, the
+   consumer's initial value) -- what `last_lcw_refresh_index += 1` after EVERY `lcs_w.refresh()` establishes. *)
+Section IncrStatements.
+  Context {msg info : Type}.
+
+  (* the invariant the protocol relies on, for every reachable state of every interleaving: any refresh still to come
+     carries an index strictly greater than the consumer's last index and than every index visible in the table now *)
+  Theorem C13_refresh_index_fresh cap (evs : list (@iev msg info)) (s : @ist msg info) i ups :
+    fresh 0 evs -> isteps cap (iinit evs) s -> In (IRefresh i ups) (i_todo s) ->
+    (i_last s < i)%N /\ forall e, In e (i_cur s) -> (e_idx e < i)%N.
+  Proof. exact (refresh_index_fresh cap evs s i ups). Qed.
+
+  (* ... and from it: for every capacity and EVERY interleaving of looks, once the writer is done the next look leaves the
+     consumer with the final table -- every lifecycle of the final table with exactly its final entry, nothing else except
+     lifecycles the writer removed -- and it stays so ("the same final lifecycle table for every pacing", at a follower) *)
+  Theorem C13_incremental_consumer_final_table cap (evs : list (@iev msg info)) (s s' : @ist msg info) :
+    fresh 0 evs -> isteps cap (iinit evs) s -> i_todo s = [] -> isteps cap (ipoll s) s' ->
+    (forall id e, lookup id (final_view [] evs) = Some e -> lookup id (i_tbl s') = Some e) /\
+    (forall id, lookup id (final_view [] evs) = None -> lookup id (i_tbl s') = None \/ In id (dels_of evs)).
+  Proof. exact (incremental_consumer_final_table cap evs s s'). Qed.
+
+  (* the complement of the recorded finding below: a writer that never removes a published lifecycle *)
+  Theorem C13_incremental_consumer_final_table_no_removals cap (evs : list (@iev msg info)) (s s' : @ist msg info) :
+    fresh 0 evs -> dels_of evs = [] -> isteps cap (iinit evs) s -> i_todo s = [] -> isteps cap (ipoll s) s' ->
+    forall id, lookup id (i_tbl s') = lookup id (final_view [] evs).
+  Proof. exact (incremental_consumer_final_table_no_removals cap evs s s'). Qed.
+
+  (* refuted variant (the behaviour class of seeded change C13-6): two refreshes under ONE index with a send in between (two
+     lifecycles confirmed by one buffer check).  For every capacity there is an interleaving -- the consumer looks in between
+     -- after which the second lifecycle is missing at the consumer for ever, and one -- it looks only afterwards -- with
+     the complete table: the follower's final table depends on the pacing *)
+  Theorem C13_shared_refresh_index_consumer_stays_stale cap k a b (ia ib : info) (m : msg) :
+    (0 < k)%N -> a <> b ->
+    let evs := [IRefresh k [(a, ia)]; ISend m; IRefresh k [(b, ib)]] in
+    lookup b (final_view [] evs) = Some (stamp k (b, ib)) /\
+    (exists s : @ist msg info, isteps cap (iinit evs) s /\ i_todo s = [] /\ i_chan s = [] /\ i_got s = [m] /\
+       forall s', isteps cap s s' -> lookup b (i_tbl s') = None) /\
+    (exists s : @ist msg info, isteps cap (iinit evs) s /\ i_todo s = [] /\ i_chan s = [] /\ i_got s = [m] /\
+       forall id, lookup id (i_tbl (ipoll s)) = lookup id (final_view [] evs)).
+  Proof. exact (shared_index_consumer_stays_stale cap k a b ia ib m). Qed.
+
+  (* recorded finding (class follower_keeps_removed_lifecycle): the freshness invariant holds, a published lifecycle is
+     removed again; a consumer that looked while it was visible keeps it for ever, the final table does not have it *)
+  Theorem C13_removed_lifecycle_follower_refuted cap i a (ia : info) :
+    (0 < i)%N ->
+    let evs := [IRefresh i [(a, ia)]; IDel a] : list (@iev msg info) in
+    fresh 0 evs /\ lookup a (final_view [] evs) = None /\
+    exists s : @ist msg info, isteps cap (iinit evs) s /\ i_todo s = [] /\
+      forall s', isteps cap s s' -> lookup a (i_tbl s') = Some (stamp i (a, ia)).
+  Proof. exact (removed_entry_consumer_keeps_it cap i a ia). Qed.
+
+  (* the boolean evaluated on the observed publication sequence of the real stage decides the invariant; the interpreters
+     of the correspondence check compute executions of [istep] *)
+  Theorem C13_incr_fresh_decided (evs : list (@iev msg info)) top : fresh_b top evs = true <-> fresh top evs.
+  Proof. exact (fresh_b_spec evs top). Qed.
+  Theorem C13_incr_exec_sound cap sched fuel pat (s : @ist msg info) :
+    isteps cap s (irun cap sched s) /\ isteps cap s (ifinish fuel cap s) /\ isteps cap s (iscript fuel cap pat s).
+  Proof. split; [apply irun_sound|split; [apply ifinish_sound|apply iscript_sound]]. Qed.
+End IncrStatements.
+
+(* non-vacuity: lifecycles 1 and 2 confirmed by one buffer check (indices 1 and 2, the messages of lifecycle 1 sent in
+   between), a third lifecycle published at the end of the stream (3) and again by the final refresh (4).  The invariant
+   holds; the follower behind a rendezvous channel that looks after every message and the one behind a channel of capacity
+   2 under another interleaving both end with the final table.  With index 1 used twice the first one misses lifecycle 2. *)
+Example C13_incr_nonvacuous :
+  let evs (k : N) := [IRefresh 1 [(1, 5)]; ISend 0; ISend 1; IRefresh k [(2, 5)]; ISend 2; IRefresh 3 [(3, 1)]; ISend 3;
+                      IRefresh 4 [(3, 1)]]%N in
+  let fast k := ipoll (iscript 20 0 [true; true; true; true] (iinit (evs k))) in
+  let other k := ipoll (ifinish 20 2 (irun 2 [0; 0; 1; 0; 0; 2; 0; 1; 1]%nat (iinit (evs k)))) in
+  fresh 0 (evs 2%N) /\ dels_of (evs 2%N) = [] /\
+  i_tbl (fast 2%N) = final_view [] (evs 2%N) /\ i_tbl (other 2%N) = final_view [] (evs 2%N) /\ i_got (fast 2%N) = [0; 1; 2; 3]%N /\
+  ~ fresh 0 (evs 1%N) /\ lookup 2%N (i_tbl (fast 1%N)) = None /\ lookup 2%N (final_view [] (evs 1%N)) <> None /\
+  i_tbl (other 1%N) = final_view [] (evs 1%N).
+Proof.
+  cbv zeta. split; [cbn; repeat split; reflexivity|]. split; [reflexivity|].
+  split; [vm_compute; reflexivity|]. split; [vm_compute; reflexivity|]. split; [vm_compute; reflexivity|].
+  split; [cbn; intros [_ [H _]]; revert H; apply N.lt_irrefl|]. split; [vm_compute; reflexivity|].
+  split; [vm_compute; discriminate|vm_compute; reflexivity].
+Qed.
+
 (* instances: the miniature sort is a permutation stage, the filter and the pass-through are congruent *)
 Lemma C13_inst_sort w : perm_stage (st_sort w).
 Proof. exact (st_sort_perm_stage w). Qed.
@@ -375,3 +461,11 @@ Print Assumptions C13_consumer_ends_with_final_table.
 Print Assumptions C13_consumer_final_table_stays.
 Print Assumptions C13_guarded_consumer_can_stay_stale.
 Print Assumptions C13_consumer_exec_sound.
+Print Assumptions C13_refresh_index_fresh.
+Print Assumptions C13_incremental_consumer_final_table.
+Print Assumptions C13_incremental_consumer_final_table_no_removals.
+Print Assumptions C13_shared_refresh_index_consumer_stays_stale.
+Print Assumptions C13_removed_lifecycle_follower_refuted.
+Print Assumptions C13_incr_fresh_decided.
+Print Assumptions C13_incr_exec_sound.
+Print Assumptions C13_incr_nonvacuous.
